@@ -85,7 +85,7 @@ impl<const B: Word> Repr<B> {
         };
 
         // parse the body of the float number
-        let mut exponent = scale;
+        let mut exponent_wide = scale as i128;
         let ndigits;
         let significand = if let Some(dot) = src.find('.') {
             // check whether both integral part and fractional part are empty
@@ -139,7 +139,8 @@ impl<const B: Word> Repr<B> {
             if fract.is_zero() {
                 int
             } else {
-                exponent -= fract_digits as isize;
+                // the scale may be isize::MIN: do the subtraction in i128 and check the final exponent below
+                exponent_wide -= fract_digits as i128;
                 int * UBig::from_word(B).pow(fract_digits) + fract
             }
         } else {
@@ -156,7 +157,16 @@ impl<const B: Word> Repr<B> {
             }
         };
 
-        let repr = Repr::new(sign * significand, exponent);
+        // normalize with exponent 0, then add the scale: a value whose exponent does not fit in isize is rejected
+        // like a scale that does not fit (instead of overflowing)
+        let normalized = Repr::<B>::new(sign * significand, 0);
+        let repr = if normalized.significand.is_zero() {
+            normalized
+        } else {
+            let exponent = isize::try_from(exponent_wide + normalized.exponent as i128)
+                .map_err(|_| ParseError::InvalidDigit)?;
+            Repr { significand: normalized.significand, exponent }
+        };
         Ok((repr, ndigits))
     }
 }
